@@ -139,7 +139,9 @@ fn run_query(kind: i128, len: i32, items: &[S], q: &Q) -> Vec<f64> {
         Some(b) => b,
         None => (end - start) as usize,
     };
-    let mut arr = Array1::from(vec![q.missing; n]);
+    // the caller may hand in an array of its own (`arr=`), e.g. the one a previous call filled: whatever it
+    // holds must not show in the answer, so the array starts with a value no routine produces
+    let mut arr = Array1::from(vec![31337.5f64; n]);
     let (is, ie) = if kind == 0 || kind == 2 {
         wig_clamp(start, end, length)
     } else {
